@@ -161,7 +161,7 @@ def fn_case(draw):
              "threshold": draw(st.sampled_from([1.5, 3.0, 10.0])), "nfft": draw(st.sampled_from([32, 33, 64]))}
     elif fn == "pmtm":
         q = draw(est.params("mtm_" + draw(st.sampled_from(["unity", "eigen", "adapt"])), N, cplx))
-        q["method"] = "adapt" if q["k"] >= 2 and draw(st.booleans()) else draw(st.sampled_from(["unity", "eigen"]))
+        q["method"] = "adapt" if (q["k"] is None or q["k"] >= 2) and draw(st.booleans()) else draw(st.sampled_from(["unity", "eigen"]))
         q["nfft"] = draw(gen.nfft_at_least(N, 2))
     return {"fn": fn, "x": x, "q": q, "c": draw(scalar(cplx))}
 
@@ -197,13 +197,15 @@ def run_fn(fn, x, q):
         return [("a", a, 0, "coef"), ("e", e, 2, "scalar")]
     if fn == "arcovar_marple":
         r = S.arcovar_marple(x, q["order"])
-        return [("a", r[0], 0, "coef"), ("pf", r[1], 2, "scalar")]
+        # every returned quantity: forward/backward coefficients, both variances and the per-order variance list
+        return [("a", r[0], 0, "coef"), ("pf", r[1], 2, "scalar"), ("ab", r[2], 0, "coef"), ("pb", r[3], 2, "scalar"),
+                ("pbv", np.atleast_1d(np.asarray(r[4], dtype=complex)), 2, "vec")]
     if fn == "modcovar":
         a, e = S.modcovar(x, q["order"])
         return [("a", a, 0, "coef"), ("e", e, 2, "scalar")]
     if fn == "modcovar_marple":
         r = S.modcovar_marple(x, q["order"])
-        return [("a", r[0], 0, "coef"), ("p", r[1], 2, "scalar")]
+        return [("a", r[0], 0, "coef"), ("p", r[1], 2, "scalar"), ("pv", np.atleast_1d(np.asarray(r[2], dtype=complex)), 2, "vec")]
     if fn == "arma_estimate":
         a, b, rho = S.arma_estimate(x, q["P"], q["Q"], q["lag"])
         return [("a", a, 0, "coef4"), ("b", b, 0, "coef4"), ("rho", rho, 2, "scalar4")]
